@@ -58,6 +58,7 @@ type Machine struct {
 	lastSite string
 	expects  []string
 	inLibSig bool
+	hashInjective bool
 }
 
 type observed struct {
